@@ -5,7 +5,7 @@ from .textlevel import *
 from mirsym import strings
 from oracle.langs import LANGS
 
-SEPS = [' ', ', ', '. ', ' ', '  ', '; ']
+SEPS = [' ', ', ', '. ', '\u00a0', '  ', '; ']
 PLAIN = 'q'       # an ordinary one-letter word that is neither a number word nor a linking word
 
 
